@@ -333,13 +333,18 @@ def _check_temperature(tau):
     if not 0 < tau < math.inf:
         raise ValueError("Temperature must be positive and finite")
 
+def _softmax_tau(logits, tau):
+    # softmax(logits / tau), with the largest logit subtracted before the division: logits / tau overflows to inf for a
+    # temperature near the smallest float (1e-38) and softmax(inf, ...) is NaN, while (logits - max) / tau is at most 0
+    return torch.nn.functional.softmax((logits - logits.max(-1, keepdim=True)[0]) / tau, dim=-1)
+
 def soft_raw(logits, tau=1.0):
     _check_temperature(tau)
-    return torch.nn.functional.softmax(logits / tau, dim=-1)
+    return _softmax_tau(logits, tau)
 
 def hard_raw(logits, tau=1.0):
     _check_temperature(tau)
-    x = torch.nn.functional.softmax(logits / tau, dim=-1)
+    x = _softmax_tau(logits, tau)
     # Straight through. The gate is the argmax of the logits themselves (as in eval mode): after the division,
     # exp and normalisation two different logits can round to the same softmax value
     index = logits.max(-1, keepdim=True)[1]
